@@ -180,6 +180,12 @@ func decodeNode(encNode []byte, marshalizer marshal.Marshalizer, hasher hashing.
 		return nil, err
 	}
 
+	bn, isBranch := newNode.(*branchNode)
+	if isBranch && len(bn.EncodedChildren) != nrOfChildren {
+		// a branch node always carries nrOfChildren entries; anything else would be indexed out of range
+		return nil, ErrInvalidEncoding
+	}
+
 	newNode.setMarshalizer(marshalizer)
 	newNode.setHasher(hasher)
 
